@@ -165,6 +165,19 @@ def cases(tier, seed):
             hist.append({"fn": fn, "kwargs": _valid_opts(fn, rng.choice(DS_OPTS)) if fn != "compileInterpolatableTTFs" else {}})
         specs.append({"source": {"kind": "family", "family": fam}, "lib": rng.choice(["ufoLib2", "defcon"]), "history": hist})
     specs += _fixture_specs(rng, tier)
+    # in-memory designspaces whose <source> descriptors have no name, or share one (legal: the compilers name their working
+    # copies themselves) -- the caller's descriptors keep what they had
+    rng2 = random.Random(seed * 1000003 + 70007)
+    for k in range(8 if tier == "quick" else 60):
+        fam = gen.rich_family(rng2, n_masters=3 if k % 2 else 2)
+        for j, m in enumerate(fam["masters"]):
+            m["name"] = None if k % 4 < 2 else ("master" if j < 2 else "other")
+        if k % 4 == 1:
+            fam["masters"][0]["name"] = "named"
+        fn = ["compileVariableTTF", "compileVariableCFF2", "compileVariableTTFs", "compileVariableCFF2s",
+              "compileInterpolatableTTFsFromDS", "compileInterpolatableOTFsFromDS"][k % 6]
+        hist = [{"fn": fn, "kwargs": {}}] * (2 if k % 3 == 0 else 1)
+        specs.append({"source": {"kind": "family", "family": fam}, "lib": rng2.choice(["ufoLib2", "defcon"]), "history": hist})
     out = []
     for k, s in enumerate(specs):
         s["cid"] = f"c07-{seed}-{k}"
